@@ -685,8 +685,24 @@ def line_comment_trailing_blanks(prog, rep, R):
     ev = slices.SliceEval(prog, b, is_content)
     # names of &str values that reach the end of the token's text (the text itself and its suffixes)
     reaches_end = set()
+    # end trimmers that remove at least spaces and tabs (trim_ascii_end, trim_end, trim_end_matches(<predicate probed concretely>), helpers
+    # returning one of these on their parameter): canonical name of the trimmed value -> canonical name of what was trimmed
+    verdict = {}
     for c in b.calls():
-        if (c.callee or "") in ("core::str::trim_ascii_end", "core::str::len", "core::str::is_empty"):
+        if not c.t.get("dst") or not c.args:
+            continue
+        fn = norm(c.t.get("resolved") or c.t.get("callee") or "?")
+        term = ("call", fn, tuple(slices.t_operand(b, a, 0, (), c.bb) for a in c.args))
+        verdict[fn] = verdict.get(fn, True) and slices.ascii_blank_end_trim(prog, term) is not None
+    trimmer_callees = {fn for fn, ok in verdict.items() if ok}
+    trim_names = {fn.split("::")[-1] for fn in trimmer_callees} - {fn.split("::")[-1] for fn, ok in verdict.items() if not ok}   # the table engine prints calls by their last path segment
+
+    def trimmed_arg(x):
+        """X if x is `<end trimmer>(X[, predicate])`"""
+        sc = split_call(x)
+        return sc[1][0] if sc and sc[0] in trim_names and len(sc[1]) in (1, 2) else None
+    for c in b.calls():
+        if (c.callee or "") in ("core::str::len", "core::str::is_empty") or norm(c.t.get("resolved") or c.t.get("callee") or "?") in trimmer_callees:
             t = slices.t_operand(b, c.args[0], 0, (), c.bb)
             sl = ev.slice(t)
             if sl is not None and slices.lin_eq(sl[1], ev.L):
@@ -735,8 +751,7 @@ def line_comment_trailing_blanks(prog, rep, R):
             return None
         inner = [p[1][0] for p in parts]
         for a, o in ((inner[0], inner[1]), (inner[1], inner[0])):
-            t = split_call(a)
-            if t and t[0] == "trim_ascii_end" and len(t[1]) == 1 and t[1][0] == o:
+            if trimmed_arg(a) == o:
                 return sc[0], o
         return None
     bad = []
@@ -762,14 +777,17 @@ def line_comment_trailing_blanks(prog, rep, R):
                 bad.append(("keeps the old text", sorted(str(c[1])[:60] + "=" + str(c[2]) for c in cons if c[0] == "cond")))
             continue
         trunc = [a for nm, a in calls if nm.endswith("String::truncate")]
-        trimmed_by_truncate = any(a and a[-1].startswith("len(trim_ascii_end(") for a in trunc)
+        def len_of_trimmed(x):
+            sc = split_call(x)
+            return bool(sc) and sc[0] == "len" and len(sc[1]) == 1 and trimmed_arg(sc[1][0]) is not None
+        trimmed_by_truncate = any(a and len_of_trimmed(a[-1]) for a in trunc)
         pushes = [a for nm, a in calls if nm.endswith("String::push_str")]
-        lt = split_call(pushes[-1][-1]) if pushes else None
-        last_trimmed = bool(lt) and lt[0] == "trim_ascii_end" and reaches(lt[1][0]) and not trunc
+        lt = pushes[-1][-1] if pushes else None
+        last_trimmed = lt is not None and trimmed_arg(lt) is not None and reaches(trimmed_arg(lt)) and not trunc
         if not (no_trailing or trimmed_by_truncate or last_trimmed):
             bad.append(("replaces the text", sorted(str(c[1])[:60] + "=" + str(c[2]) for c in cons if c[0] == "cond")))
     rep.check(n >= 4 and not bad, R, "line-comment-ends-without-blanks", "%d of %d paths through format_line_comment can leave a line comment with trailing blanks; first: %s" % (len(bad), n, bad[:1]),
-              where="%s:%d" % (b.file, b.line), instance={"paths": n, "texts_reaching_the_end": sorted(reaches_end), "violating": [x[0] + ": " + "; ".join(x[1]) for x in bad[:3]]})
+              where="%s:%d" % (b.file, b.line), instance={"paths": n, "end_trimmers": sorted(x.split("::")[-1] for x in trimmer_callees), "texts_reaching_the_end": sorted(reaches_end), "violating": [x[0] + ": " + "; ".join(x[1]) for x in bad[:3]]})
 
 
 def check_c08(prog, rep, tier, cfg):
